@@ -206,8 +206,9 @@ pub fn run_c06(args: &Args) -> i32 {
     let single = c.parses.load(Ordering::Relaxed);
     eprintln!("[C06] single edits done: {single} parses, {:.1}s", report.start.elapsed().as_secs_f64());
 
+    let light = std::env::var("VCHECK_C06_LIGHT").is_ok();
     // 2. double edits over the representative alphabet
-    let n_double_seeds = if reduced() { 3 } else if quick { 30.min(seeds.len()) } else { seeds.len() };
+    let n_double_seeds = if light { 0 } else if reduced() { 3 } else if quick { 30.min(seeds.len()) } else { seeds.len() };
     // quick picks the seeds with the richest field shapes first (rights, ep, clocks)
     let mut ranked: Vec<&String> = seeds.iter().collect();
     ranked.sort_by_key(|s| (!(s.contains("KQkq") || s.contains(" e3 ") || s.contains(" e6 ") || s.contains(" d6 ") || s.contains("9999")), s.len()));
@@ -228,7 +229,7 @@ pub fn run_c06(args: &Args) -> i32 {
     eprintln!("[C06] double edits done: {double} parses, {:.1}s", report.start.elapsed().as_secs_f64());
 
     // 3. every string of length <= L over the alphabet
-    let maxlen = if reduced() { 4 } else if quick { 5 } else { 6 };
+    let maxlen = if light { 3 } else if reduced() { 4 } else if quick { 5 } else { 6 };
     let k = ALPHABET.len() as u64;
     for len in 0..=maxlen {
         let total = k.pow(len as u32);
@@ -310,7 +311,18 @@ pub fn run_c06(args: &Args) -> i32 {
     eprintln!("[C06] reachable FENs done: {reach_n}, {:.1}s", report.start.elapsed().as_secs_f64());
 
     // 6. builder call sequences
-    let (builds, built_ok) = builder_sequences(&report, quick);
+    let (builds, built_ok) = if light { (0, 0) } else { builder_sequences(&report, quick) };
+    // 7. totality again in the trapping build flavour (overflow checks, debug assertions): the
+    //    single edits, field products and reachable FENs are parsed by a worker process of the
+    //    `checked` binary; a panic located in the repository is a violation of "never panics"
+    let mut trapped_parses = 0u64;
+    if !is_worker() {
+        let (n, crashes) = crate::crash::trapping_pass(&["worker", "C06", "--tier", "quick"], &[("VCHECK_C06_LIGHT", "1")]);
+        trapped_parses = n;
+        for (class, detail, case) in crashes {
+            report.record(&[Divergence::new(format!("parser-panics-in-trapping-build:{class}"), detail)], || json!({"kind": "crash", "driver": "C06", "worker_case": case}));
+        }
+    }
     eprintln!("[C06] builder done: {builds} sequences, {:.1}s", report.start.elapsed().as_secs_f64());
     restore_panics();
 
@@ -327,6 +339,7 @@ pub fn run_c06(args: &Args) -> i32 {
             "rule": "seeds = every catalogue FEN + field-shape seeds; (1) all single edits with all 256 byte values (substitute, delete, insert), every prefix; (2) all double edits over a 28-symbol alphabet holding one representative per parser match arm (quick: 30 richest seeds, thorough: all seeds); (3) every string of length <= 5 (thorough 6) over that alphabet; (4) complete product of valid/invalid spellings per field on 4 placements; (5) canonical FEN of every position reachable within depth 2 (thorough 3) of every root must be accepted and parse to that position; (6) builder call sequences. Non-trivial = inputs the parser/builder ACCEPTED (the C06 invariants are evaluated on each of them); rejected inputs only exercise totality.",
             "seeds": seeds.len(),
             "single_edit_parses": single, "double_edit_parses": double, "short_string_parses": short, "field_product_parses": prod,
+            "parses_repeated_in_trapping_build": trapped_parses,
             "reachable_fens": reach_n, "builder_sequences": builds, "builder_accepted": built_ok,
             "accepted_inputs": accepted,
             "exhaustive": true,
@@ -482,6 +495,7 @@ pub fn replay_c06(case: &Value) -> Vec<Divergence> {
         Some("bytes") => c06_case(&unhex(case["hex"].as_str().unwrap())),
         Some("reachable") => c06_reachable_case(case["fen"].as_str().unwrap()),
         Some("builder") => builder_case(&seq_from_json(&case["seq"])).1,
+        Some("crash") => crate::crash::replay_c07(case).into_iter().map(|d| Divergence::new(format!("parser-panics-in-trapping-build:{}", d.class), d.detail)).collect(),
         _ => vec![],
     }
 }
